@@ -33,6 +33,20 @@ class HarnessError(Exception):
     pass
 
 
+def _mentions_int(exprs):
+    seen = set()
+    todo = list(exprs)
+    while todo:
+        t = todo.pop()
+        if t.get_id() in seen:
+            continue
+        seen.add(t.get_id())
+        if z3.is_int(t):
+            return True
+        todo.extend(t.children())
+    return False
+
+
 def qval(fr):
     fr = Fraction(fr)
     return z3.RealVal(str(fr))
@@ -94,6 +108,10 @@ class Explorer:
         self.notes = []
         self.loop_budget = None
         self.concretize_digits = False
+        self.ceil_range = None
+        self.param_first = False
+        self.trig_ids = {}         # atom key -> ids of the circle / multiple-angle axioms of its tokens
+        self.assumptions = []      # constraints stated by the harness (ranges, assume), as opposed to branch decisions
 
     def fresh_name(self, kind):
         n = self.counters.get(kind, 0)
@@ -136,6 +154,126 @@ class Explorer:
     def check(self, *extra, timeout_ms=None):
         return self._solve(list(extra), timeout_ms)
 
+    def check_sliced(self, goal, timeout_ms=None):
+        """query `cons restricted to the cone of influence of goal` AND goal.
+        unsat is sound for the full path (fewer hypotheses); sat/unknown must be confirmed by the caller."""
+        def vars_of(e, acc):
+            todo = [e]
+            seen = set()
+            while todo:
+                t = todo.pop()
+                if t.get_id() in seen:
+                    continue
+                seen.add(t.get_id())
+                if z3.is_const(t) and t.decl().kind() == z3.Z3_OP_UNINTERPRETED:
+                    acc.add(t.decl().name())
+                else:
+                    todo.extend(t.children())
+            return acc
+        cvars = [vars_of(c, set()) for c in self.cons]
+        need = vars_of(goal, set())
+        chosen = [False] * len(self.cons)
+        changed = True
+        while changed:
+            changed = False
+            for i, vs in enumerate(cvars):
+                if not chosen[i] and (vs & need):
+                    chosen[i] = True
+                    if not vs <= need:
+                        need |= vs
+                        changed = True
+        sub = [c for c, ch, vs in zip(self.cons, chosen, cvars) if ch or len(vs) <= 1]
+        if len(sub) == len(self.cons):
+            return None
+        self.queries += 1
+        t0 = time.time()
+        int_in_slice = any(n.startswith(("modk!", "s[", "len")) or "[" in n for n in need) or _mentions_int(sub + [goal])
+        s = z3.SolverFor("QF_NRA") if (self.nonlinear and not int_in_slice) else z3.Solver()
+        s.set("timeout", timeout_ms or self.timeout_ms)
+        s.add(*sub)
+        s.add(goal)
+        r = s.check()
+        self.solver_time += time.time() - t0
+        if r == z3.unsat:
+            self.q_unsat += 1
+            return "unsat", None
+        if r == z3.sat:
+            self.q_sat += 1
+            return "sat", s.model()
+        self.q_unknown += 1
+        return "unknown", None
+
+    def check_param(self, goal, timeout_ms=None):
+        """query with the (cos, sin) tokens of free angle atoms replaced by the rational parametrisation
+        ((1-u^2)/(1+u^2), 2u/(1+u^2)) of the unit circle at the finest sub-angle of each atom; the circle and
+        multiple-angle axioms become identities and are dropped.  The one point the parametrisation misses
+        (finest token = (-1, 0)) is a separate query per atom.  Returns 'unsat' only if every case is unsat;
+        a model of the parametrised case is a candidate ('sat', model); else 'unknown'."""
+        groups = {}
+        for k, (c, s) in self.angle_atoms.items():
+            if z3.is_const(c) and c.decl().kind() == z3.Z3_OP_UNINTERPRETED and c.decl().name().startswith("cos!") and k in self.trig_ids:
+                groups[k] = {1: (c, s)}
+        for (k, q), tok in self.subatoms.items():
+            if k in groups:
+                groups[k][q] = tok
+        chains = {}
+        for k, g in groups.items():
+            qf = max(g)
+            if all(qf % q == 0 for q in g):
+                chains[k] = (qf, g)
+        if not chains:
+            return None
+        t_end = time.time() + (timeout_ms or self.timeout_ms) / 1000.0
+
+        def subs_for(k, fin):
+            qf, g = chains[k]
+            out = []
+            for q, (c, s) in g.items():
+                pw = _cpow(fin, qf // q)
+                out.append((c, z3.simplify(pw[0])))
+                out.append((s, z3.simplify(pw[1])))
+            return out
+
+        def run(subs, dropped):
+            left = int((t_end - time.time()) * 1000)
+            if left < 200:
+                return "unknown", None
+            self.queries += 1
+            t0 = time.time()
+            sol = z3.SolverFor("QF_NRA") if not (self.has_int and _mentions_int(self.cons + [goal])) else z3.Solver()
+            sol.set("timeout", left)
+            for c in self.cons:
+                if c.get_id() in dropped:
+                    continue
+                sol.add(z3.substitute(c, *subs))
+            sol.add(z3.substitute(goal, *subs))
+            r = sol.check()
+            self.solver_time += time.time() - t0
+            if r == z3.unsat:
+                self.q_unsat += 1
+                return "unsat", None
+            if r == z3.sat:
+                self.q_sat += 1
+                return "sat", sol.model()
+            self.q_unknown += 1
+            return "unknown", None
+
+        # the points the parametrisation misses, one atom at a time (the other atoms keep their tokens)
+        for k in chains:
+            fin = (z3.RealVal(-1), z3.RealVal(0))
+            r, m = run(subs_for(k, fin), set(self.trig_ids[k]))
+            if r == "sat":
+                return "sat", m
+            if r != "unsat":
+                return "unknown", None
+        subs, dropped = [], set()
+        for i, k in enumerate(chains):
+            u = z3.Real("u!%d" % i)
+            den = 1 + u * u
+            subs.extend(subs_for(k, ((1 - u * u) / den, 2 * u / den)))
+            dropped |= set(self.trig_ids[k])
+        return run(subs, dropped)
+
     def add(self, *cs):
         """add axioms / assumptions (invalidates the cached model unless it satisfies them)"""
         for c in cs:
@@ -154,6 +292,7 @@ class Explorer:
             return
         if z3.is_false(c):
             raise PathAbort("assumption false")
+        self.assumptions.append(c)
         self.add(c)
         # infeasibility is discovered at the next branch or at the claim's vacuity check
 
@@ -307,6 +446,8 @@ class SymReal(_float):
         return o
 
     def _bin(s, o, f, nl=False):
+        if isinstance(o, _complex):
+            return f(SymComplex(s, 0.0), SymComplex.of(o))
         try:
             oe = lift(o)
         except Unsupported:
@@ -323,6 +464,8 @@ class SymReal(_float):
     __rmul__ = __mul__
 
     def __truediv__(s, o):
+        if isinstance(o, _complex):
+            return SymComplex(s, 0.0) / SymComplex.of(o)
         try:
             d = lift(o)
         except Unsupported:
@@ -431,6 +574,97 @@ class SymReal(_float):
 
 def mkreal(e):
     return SymReal(e)
+
+
+_complex = builtins.complex
+
+
+class SymComplex(_complex):
+    """complex subclass whose parts are SymReal / plain numbers (svg.path heritage: Point arithmetic through complex)"""
+
+    def __new__(cls, re, im):
+        o = _complex.__new__(cls, 0.0, 0.0)
+        o.re, o.im = re, im
+        return o
+
+    @property
+    def real(s): return s.re
+    @property
+    def imag(s): return s.im
+
+    @staticmethod
+    def of(v):
+        if isinstance(v, SymComplex):
+            return v
+        if isinstance(v, _complex):
+            return SymComplex(v.real, v.imag)
+        if isinstance(v, (SymReal, SymInt, _int, _float)):
+            return SymComplex(v, 0.0)
+        return None
+
+    def __add__(s, o):
+        o = SymComplex.of(o)
+        return NotImplemented if o is None else SymComplex(s.re + o.re, s.im + o.im)
+    __radd__ = __add__
+    def __sub__(s, o):
+        o = SymComplex.of(o)
+        return NotImplemented if o is None else SymComplex(s.re - o.re, s.im - o.im)
+    def __rsub__(s, o):
+        o = SymComplex.of(o)
+        return NotImplemented if o is None else SymComplex(o.re - s.re, o.im - s.im)
+    def __mul__(s, o):
+        o = SymComplex.of(o)
+        return NotImplemented if o is None else SymComplex(s.re * o.re - s.im * o.im, s.re * o.im + s.im * o.re)
+    __rmul__ = __mul__
+    def __truediv__(s, o):
+        o = SymComplex.of(o)
+        if o is None:
+            return NotImplemented
+        d = o.re * o.re + o.im * o.im
+        return SymComplex((s.re * o.re + s.im * o.im) / d, (s.im * o.re - s.re * o.im) / d)
+    def __neg__(s): return SymComplex(-s.re, -s.im)
+    def __abs__(s): return sym_hypot(s.re, s.im)
+    def conjugate(s): return SymComplex(s.re, -s.im)
+    def __complex__(s): return s
+    def __eq__(s, o):
+        o = SymComplex.of(o)
+        return False if o is None else bool(s.re == o.re) and bool(s.im == o.im)
+    def __ne__(s, o): return not s.__eq__(o)
+    def __hash__(s): return id(s)
+    def __repr__(s): return "SymComplex(%r, %r)" % (s.re, s.im)
+    def __pow__(s, o, m=None): raise Unsupported("complex pow")
+    def __bool__(s): return bool(s.re != 0) or bool(s.im != 0)
+
+
+class _ComplexMeta(type):
+    def __instancecheck__(cls, inst):
+        return isinstance(inst, _complex)
+
+    def __subclasscheck__(cls, sub):
+        return issubclass(sub, _complex)
+
+
+class symcomplex(metaclass=_ComplexMeta):
+    """replacement for the module-global name `complex`"""
+
+    def __new__(cls, *args):
+        return sym_complex(*args)
+
+
+def sym_complex(*args):
+    if len(args) == 1:
+        a = args[0]
+        if isinstance(a, SymComplex):
+            return a
+        if hasattr(a, "__complex__") and not isinstance(a, (_complex, _int, _float, str)):
+            r = a.__complex__()
+            return r
+        if isinstance(a, (SymReal, SymInt)):
+            return SymComplex(a, 0.0)
+        return _complex(a)
+    if len(args) == 2 and any(isinstance(a, (SymReal, SymInt)) for a in args):
+        return SymComplex(args[0], args[1])
+    return _complex(*args)
 
 
 def fresh_real(name):
@@ -644,6 +878,13 @@ def sym_ceil(x):
         return x
     if not isinstance(x, SymReal):
         return math.ceil(x)
+    rng = getattr(EX, "ceil_range", None)
+    if rng is not None:
+        # fork over the integer values (no Int sort in the path condition)
+        for k in range(rng[0], rng[1] + 1):
+            if EX.branch(z3.And(x.e > k - 1, x.e <= k)):
+                return k
+        raise Unsupported("ceil outside %d..%d" % tuple(rng))
     EX.has_int = True
     return SymInt(-z3.ToInt(-x.e))
 
@@ -961,7 +1202,9 @@ def _atom_token(atom):
     c = z3.Real(EX.fresh_name("cos"))
     s = z3.Real(EX.fresh_name("sin"))
     EX.nonlinear = True
-    EX.add(c * c + s * s == 1)
+    circ = c * c + s * s == 1
+    EX.add(circ)
+    EX.trig_ids.setdefault(k, []).append(circ.get_id())
     # exact values at multiples of a quarter turn (true of the real functions up to rounding)
     for kq in range(-4, 5):
         cv, sv = [(1, 0), (0, 1), (-1, 0), (0, -1)][kq % 4]
@@ -983,7 +1226,9 @@ def _subatom_token(atom, q):
     EX.nonlinear = True
     full = _atom_token(atom)
     p = _cpow((c, s), q)
-    EX.add(c * c + s * s == 1, z3.simplify(p[0]) == full[0], z3.simplify(p[1]) == full[1])
+    axs = [c * c + s * s == 1, z3.simplify(p[0]) == full[0], z3.simplify(p[1]) == full[1]]
+    EX.add(*axs)
+    EX.trig_ids.setdefault(atom.sexpr(), []).extend(a.get_id() for a in axs)
     EX.subatoms[k] = (c, s)
     return c, s
 
@@ -1024,6 +1269,35 @@ def angle_token(e):
                    t[1] >= qval(Fraction(sv) - eps), t[1] <= qval(Fraction(sv) + eps))
             tok = _cmul(tok, t)
     return z3.simplify(tok[0]), z3.simplify(tok[1])
+
+
+def angle_brackets(x, points):
+    """monotonicity facts of the real cos and sin for the angle x at the given concrete breakpoints (radians):
+    cos decreases on [0, tau/2] and increases on [-tau/2, 0]; sin increases on [-tau/4, tau/4].
+    Values at the breakpoints are enclosed to 1e-12."""
+    sx = _as_symreal(x)
+    if sx is None:
+        return
+    c, s = angle_token(sx.e)
+    e = sx.e
+    half, quarter = qval(TAUQ / 2), qval(TAUQ / 4)
+    eps = Fraction(1, 10 ** 12)
+    cs = []
+    for p in points:
+        pq = Fraction(p)
+        pv = qval(pq)
+        cv, sv = Fraction(math.cos(_float(p))), Fraction(math.sin(_float(p)))
+        if 0 <= pq <= TAUQ / 2:
+            cs.append(z3.Implies(z3.And(e >= 0, e <= pv), c >= qval(cv - eps)))
+            cs.append(z3.Implies(z3.And(e >= pv, e <= half), c <= qval(cv + eps)))
+            cs.append(z3.Implies(z3.And(e <= 0, e >= -pv), c >= qval(cv - eps)))
+            cs.append(z3.Implies(z3.And(e <= -pv, e >= -half), c <= qval(cv + eps)))
+        if -TAUQ / 4 <= pq <= TAUQ / 4:
+            cs.append(z3.Implies(z3.And(e >= -quarter, e <= pv), s <= qval(sv + eps)))
+            cs.append(z3.Implies(z3.And(e >= pv, e <= quarter), s >= qval(sv - eps)))
+            cs.append(z3.Implies(z3.And(e >= -quarter, e <= -pv), s <= qval(-sv + eps)))
+            cs.append(z3.Implies(z3.And(e >= -pv, e <= quarter), s >= qval(-sv - eps)))
+    EX.add(*cs)
 
 
 def _as_symreal(x):
@@ -1228,7 +1502,8 @@ def load_module():
             raise HarnessError("module imports `math` as a namespace: shim required")
     S.float = symfloat
     S.int = symint
-    rebound += ["float", "int"]
+    S.complex = symcomplex
+    rebound += ["float", "int", "complex"]
     # Angle(float): keep symbolic values symbolic
     A = S.Angle
 
